@@ -22,7 +22,7 @@ _EXPLANATION = (
     "runs only."
 )
 
-PROP = {
+PROP = {'drive': ['Conc'], 
     'level': 'other',
     'explanation': _EXPLANATION,
     'modules': ['SfntV.Props.C16'],
